@@ -357,6 +357,11 @@ CORPUS = [
     {"kind": "single", "cls": "multiples", "skind": "default", "freqs": [0.5, 1.0], "shifts": None, "order": 1},
     {"kind": "single", "cls": "multiples", "skind": "default", "freqs": [1, 2, 3], "shifts": None, "order": 1},
     {"kind": "single", "cls": "multiples", "skind": "default", "freqs": [1, 2], "shifts": None, "order": 2},
+    # higher orders (the iterated product of rules has repeated factors: multinomial multiplicities)
+    {"kind": "single", "cls": "multiples", "skind": "default", "freqs": [1, 2], "shifts": None, "order": 3},
+    {"kind": "single", "cls": "multiples", "skind": "default", "freqs": [1, 2], "shifts": None, "order": 4},
+    {"kind": "single", "cls": "multiples", "skind": "default", "freqs": [1], "shifts": None, "order": 3},
+    {"kind": "single", "cls": "multiples", "skind": "default", "freqs": [0.5, 1.0, 1.5], "shifts": None, "order": 3},
     {"kind": "single", "cls": "integer_gaps", "skind": "explicit_random", "freqs": [1, 2, 4],
      "shifts": [math.pi / 3, 2 * math.pi / 3, math.pi / 4], "order": 1},
     {"kind": "single", "cls": "integer_gaps", "skind": "default", "freqs": [1, 2, 4], "shifts": None, "order": 1},
